@@ -1,17 +1,20 @@
 """C38 failed or interrupted runs never leave a corrupt or partial archive (X-fault).
 
 For each scenario a recording pass lists the dynamic sequence of intercepted effects (file
-writes, array saves, compression, YAML dumps, tar members, computation steps, user code points).
+writes, array saves, compression, YAML dumps, tar members and end-of-archive, unpacking, tree
+copies / removals, computation steps, user code points).
 Then the scenario is re-run once per effect index with a failure injected at that effect (and,
 for byte writes, a torn variant: half of the bytes reach the file). Thorough adds all ordered
 pairs (i, j > i) whose second fault hits the error path / the follow-up run.
-Oracle: new EKO -> target path absent; edited EKO -> previous complete content; then an
-un-faulted run on the same path succeeds and equals the fault-free result.
+Oracle: new EKO -> target path absent; edited EKO -> previous complete content, byte for byte;
+then an un-faulted run on the same path succeeds and equals the fault-free result (operators,
+cards, metadata, headers). A run refused because the path is taken leaves the path untouched.
 """
 
 import os
 import shutil
 import pathlib
+import tarfile
 
 import numpy as np
 
@@ -22,19 +25,32 @@ ID = "C38"
 LEVEL = "fault_enumeration"
 TECHNIQUE = "exhaustive single-fault (thorough: pair) injection at every intercepted effect of the real solve / edit / product write paths, incl. torn writes"
 LEVEL_TEXT = (
-    "every intercepted effect of a small threshold-crossing solve, of an edit session and of an EKO "
+    "every intercepted effect of a small threshold-crossing solve, of an edit session (operator stores and a metadata store) and of an EKO "
     "product is failed one at a time (torn variants for byte writes; pairs in thorough); after each, the "
-    "archive path is absent or holds its previous content and a clean re-run succeeds and reproduces the fault-free result"
+    "archive path is absent or holds its previous bytes and a clean re-run succeeds and reproduces the fault-free result "
+    "(operators, cards, metadata, headers); a solve refused on an existing path leaves its bytes alone"
 )
 LEVEL_NOTE = (
-    "faults are Python exceptions raised at the intercepted sites, or the death of the process there (os._exit); no power loss; sites: "
-    "Path.write_text/mkdir/unlink, open-for-write+write, np.save/savez, lz4 compress, yaml dump, tarfile open/addfile, "
-    "copytree, os.replace, mkdtemp, parts.evolve/match, operators.join/retrieve, recipes.create, user code points"
+    "faults are Python exceptions raised at the intercepted sites, or the death of the process there (os._exit in a forked child); no power loss; sites: "
+    "Path.write_text/mkdir/unlink/rmdir, open-for-write+write, np.save/savez, lz4 compress, yaml dump/safe_dump, tarfile open/addfile/close/extractall, "
+    "copytree, rmtree, os.replace, mkdtemp, parts.evolve/match, operators.join/retrieve, recipes.create, user code points; "
+    "a failure after the commit (os.replace onto the target) may leave the complete new content instead"
 )
 FLOOR_NONTRIVIAL = 20
 
 SOLVE_CFG = dict(order=[1, 0], xgrid=[0.2, 0.6, 1.0], init=[4.0, 4], mugrid=[[6.0, 5]], method="truncated")
 SCENARIOS = ["solve", "edit", "product_new", "product_inplace"]
+# a run that fails by refusal: the one failure point of a new-EKO run at which the target path does hold something
+REFUSED = "solve_over_existing"
+# sites beyond the default list of the injector (numbering of the default list is untouched)
+SITES_X = effects.SITES_EXT
+# array steps that can fail by allocation (MemoryError: an Exception that is neither OSError nor RuntimeError)
+ARRAY_LABELS = ("np.save", "np.savez", "lz4.compress", "parts.evolve", "parts.match", "operators.join")
+EDIT_XGRID = [0.25, 0.6, 1.0]
+
+
+def _injector(plan=None):
+    return effects.Injector(plan, extra_sites=SITES_X)
 
 
 def _ops(path):
@@ -50,6 +66,33 @@ def _eq_ops(a, b):
                 return f"error presence differs at {k}"
             if x is not None and x.tobytes() != y.tobytes():
                 return f"array differs at {k}"
+    return None
+
+
+def _content(path):
+    """Complete content of an archive: operators (arrays), member list, and the bytes of every other member
+    (theory / operator cards, metadata, headers of recipes, parts and operators). Compressed arrays are compared
+    as arrays: the .npz container carries a time stamp."""
+    ops = _ops(path)
+    texts = {}
+    with tarfile.open(path) as tar:
+        members = tar.getmembers()
+        for m in members:
+            if m.isfile() and not m.name.endswith(".lz4"):
+                texts[m.name] = tar.extractfile(m).read()
+        names = sorted(m.name for m in members)
+    return {"ops": ops, "texts": texts, "names": names}
+
+
+def _eq_content(a, b):
+    d = _eq_ops(a["ops"], b["ops"])
+    if d:
+        return d
+    if a["names"] != b["names"]:
+        return f"archive members differ: {sorted(set(a['names']) ^ set(b['names']))}"
+    for k in a["texts"]:
+        if a["texts"][k] != b["texts"][k]:
+            return f"member {k} differs: {a['texts'][k][:200]!r} vs {b['texts'][k][:200]!r}"
     return None
 
 
@@ -73,6 +116,31 @@ def _mk_base(path, eps, init=(4.0, 4), seed0=0):
 
 EP_A, EP_B, EP_C = (36.0, 5), (49.0, 5), (64.0, 5)
 
+_TPL = {}
+
+
+def _template(name):
+    """The prepared files of a scenario (made once per process by real sessions; every case gets its own copy)."""
+    if name in _TPL:
+        return _TPL[name]
+    d = _fresh_dir("tpl-" + name)
+    d.mkdir(parents=True, exist_ok=True)
+    try:
+        target, ini, fin = d / "target.tar", d / "ini.tar", d / "fin.tar"
+        if name == "edit":
+            _mk_base(target, [EP_A, EP_B])
+        elif name == REFUSED:
+            _mk_base(target, [EP_A])
+        elif name in ("product_new", "product_inplace"):
+            _mk_base(ini if name == "product_new" else target, [EP_A], init=(4.0, 4), seed0=0)
+            _mk_base(fin, [EP_B, EP_C], init=(6.0, 5), seed0=5)
+        files = {p.name: p.read_bytes() for p in (target, ini, fin) if p.exists()}
+        before = _content(target) if target.exists() else None
+        _TPL[name] = (files, before)
+        return _TPL[name]
+    finally:
+        shutil.rmtree(d, ignore_errors=True)
+
 
 class Scenario:
     """prepare(dir) -> state ; run(state, inj) ; check_after_fault(state) ; rerun_clean(state) -> error or None."""
@@ -86,15 +154,12 @@ class Scenario:
 
     # ---- setup (no injector active)
     def prepare(self):
-        if self.name == "edit":
-            _mk_base(self.target, [EP_A, EP_B])
-        elif self.name in ("product_new", "product_inplace"):
-            self.ini = self.d / "ini.tar"
-            self.fin = self.d / "fin.tar"
-            _mk_base(self.ini if self.name == "product_new" else self.target, [EP_A], init=(4.0, 4), seed0=0)
-            _mk_base(self.fin, [EP_B, EP_C], init=(6.0, 5), seed0=5)
-        self.before = _ops(self.target) if self.target.exists() else None
-        self.before_bytes = self.target.read_bytes() if self.target.exists() else None
+        files, self.before = _template(self.name)
+        for fname, data in files.items():
+            (self.d / fname).write_bytes(data)
+        self.ini = self.d / "ini.tar"
+        self.fin = self.d / "fin.tar"
+        self.before_bytes = files.get("target.tar")
 
     def attach(self):
         """In the child process: paths of an already prepared scenario directory."""
@@ -106,16 +171,21 @@ class Scenario:
         from eko.io.items import Operator
         from eko.io.struct import EKO
 
-        if self.name == "solve":
+        if self.name in ("solve", REFUSED):
             import eko
 
             th, op = cards.build(SOLVE_CFG)
             eko.solve(th, op, self.target)
         elif self.name == "edit":
+            from eko.interpolation import XGrid
+
             with EKO.edit(self.target) as e:
                 a, err = _arr(7)
                 e[EP_C] = Operator(a, err)
                 inj.user_point("user-code-1")
+                # a metadata store inside the session (xgrid setter -> EKO.update -> Metadata.update)
+                e.xgrid = XGrid(EDIT_XGRID)
+                inj.user_point("user-code-after-xgrid")
                 a, err = _arr(8, with_err=False)
                 e[EP_A] = Operator(a, err)
                 inj.user_point("user-code-2")
@@ -147,13 +217,25 @@ class Scenario:
         if not self.target.exists():
             return "lost", "edited archive does not exist any more"
         try:
-            now = _ops(self.target)
+            now = _content(self.target)
         except Exception as e:  # noqa
             return "corrupt", f"edited archive unreadable after the failed session: {type(e).__name__}: {str(e)[:120]}"
-        d = _eq_ops(self.before, now)
+        d = _eq_content(self.before, now)
         if d:
             return "changed", f"edited archive content changed although the session failed: {d}"
+        # write-aside + replace: a failed session must not have touched the file at all
+        if self.target.read_bytes() != self.before_bytes:
+            return "changed-bytes", "edited archive holds the previous content but not the previous bytes: the failed session rewrote the file"
         return None
+
+    def committed(self, ref):
+        """After a failure behind the commit point: does the target hold the complete fault-free result?"""
+        if not self.target.exists():
+            return False
+        try:
+            return _eq_content(ref, _content(self.target)) is None
+        except Exception:  # noqa
+            return False
 
 
 def _fresh_dir(tag):
@@ -174,27 +256,107 @@ def _reference(name):
     try:
         sc = Scenario(name, d)
         sc.prepare()
-        with effects.Injector() as inj:
-            sc.run(inj)
-        _REF[name] = (list(inj.log), _ops(sc.target))
+        refused = None
+        with _injector() as inj:
+            try:
+                sc.run(inj)
+            except Exception as e:  # noqa
+                if name != REFUSED:
+                    raise
+                refused = e
+        # a run on a path that holds an archive is refused by the tree as it is (no result: None); a tree that allows
+        # overwriting gives a result, and then every effect of that run is enumerated like those of the other scenarios
+        _REF[name] = (list(inj.log), None if refused is not None else _content(sc.target))
         return _REF[name]
     finally:
         shutil.rmtree(d, ignore_errors=True)
 
 
+def _commit_index(log_ref):
+    """Index of the effect that puts the result in place (the last os.replace): later effects are clean-up."""
+    return max([i for i, label in enumerate(log_ref) if label == "os.replace"], default=len(log_ref))
+
+
+def _after_failure(sc, name, sig, where, first, log_ref, ref, res, what="failed run"):
+    """Oracle after a failed / killed run: untouched target, then a clean re-run reproduces the fault-free result.
+
+    Behind the commit point (clean-up of the working directory after os.replace) the statement's two alternatives are
+    extended by the third possible honest state: the complete new content."""
+    post = first > _commit_index(log_ref)
+    if post and sc.committed(ref):
+        res.info["post_commit"] = True
+        if sc.kind == "new":
+            return  # complete result in place; a new run on this path is refused by design (see REFUSED)
+        bad = None
+    else:
+        bad = sc.check_after_fault()
+    if bad:
+        res.fail(f"{sig}/{bad[0]}", f"{where}: {bad[1]}")
+        return
+    if ref is None:
+        return  # the fault-free run on this path is itself a refusal (decided by the case without fault)
+    # a clean re-run on the same path must succeed and give the fault-free result
+    try:
+        with _injector() as inj2:
+            sc.run(inj2)
+        d_ = _eq_content(ref, _content(sc.target))
+        if d_:
+            res.fail(sig + "/rerun-differs", f"{where}: clean re-run after the {what} differs from the fault-free result: {d_}")
+    except Exception as e:  # noqa
+        res.fail(sig + "/rerun-fails", f"{where}: clean re-run on the same path after the {what} failed: {type(e).__name__}: {str(e)[:200]}")
+
+
+def _evaluate_no_fault(sc, name, log_ref, ref, res):
+    """solve() on a path that holds an archive, no fault injected: a refusal must leave the bytes alone; a tree that
+    overwrites instead claims success and must then hold the complete result of a solve."""
+    exc = None
+    with _injector() as inj:
+        try:
+            sc.run(inj)
+        except BaseException as e:  # noqa
+            exc = e
+    if inj.log != log_ref or (exc is None) != (ref is not None):
+        raise HarnessError(f"fault-free run not reproducible: {inj.log} / {type(exc).__name__} vs {log_ref} / {'result' if ref is not None else 'refused'}")
+    sig = f"{name}/no-fault"
+    where = f"scenario={name} no fault, observed={type(exc).__name__ if exc is not None else 'no error'}"
+    if exc is not None:
+        bad = sc.check_after_fault()
+        if bad:
+            res.fail(f"{sig}/{bad[0]}", f"{where}: {bad[1]}")
+        res.outcome = f"{name}:refused:{type(exc).__name__}"
+    else:
+        try:
+            d_ = _eq_content(_reference("solve")[1], _content(sc.target))
+        except Exception as e:  # noqa
+            d_ = f"unreadable: {type(e).__name__}: {str(e)[:120]}"
+        if d_:
+            res.fail(sig + "/overwrite-differs", f"{where}: the run overwrote the archive and the result is not that of a solve on a free path: {d_}")
+        res.outcome = f"{name}:overwritten"
+    res.info = {"label": "none"}
+    return res
+
+
 def evaluate(case):
     name = case["scenario"]
     plan = {int(k): v for k, v in case["plan"].items()}
-    log_ref, ops_ref = _reference(name)
-    d = _fresh_dir(f"{name}-" + "-".join(f"{k}{v[0]}" for k, v in sorted(plan.items())))
+    d = _fresh_dir(f"{name}-" + "-".join(f"{k}{v[0]}{len(v)}" for k, v in sorted(plan.items())))
     res = Result()
+    import tempfile
+
+    tmp_before = tempfile.tempdir
     try:
         sc = Scenario(name, d)
         sc.prepare()
+        # working directories of the sessions of this case live (and, when a failed session leaves them behind, die) with the case
+        (d / "tmp").mkdir()
+        tempfile.tempdir = str(d / "tmp")
+        log_ref, ref = _reference(name)
+        if not plan:
+            return _evaluate_no_fault(sc, name, log_ref, ref, res)
         if any(str(v).endswith("kill") for v in plan.values()):
-            return _evaluate_kill(case, sc, name, plan, log_ref, ops_ref, res)
+            return _evaluate_kill(case, sc, name, plan, log_ref, ref, res)
         exc = None
-        with effects.Injector(plan) as inj:
+        with _injector(plan) as inj:
             try:
                 sc.run(inj)
             except BaseException as e:  # noqa
@@ -209,92 +371,81 @@ def evaluate(case):
         kinds = "+".join(k for _, _, k in inj.fired)
         sig = f"{name}/fault@{label}/{kinds}" + ("" if len(plan) == 1 else "/pair")
         where = f"scenario={name} plan={plan} fired={inj.fired} exception={type(exc).__name__ if exc else None}"
+        res.info = {"label": label}
         if exc is None:
             # the fault was absorbed: then the run claims success and must have produced the right archive
             try:
-                d_ = _eq_ops(ops_ref, _ops(sc.target))
+                d_ = _eq_content(ref, _content(sc.target))
             except Exception as e:  # noqa
                 d_ = f"unreadable: {e}"
             if d_:
                 res.fail(sig + "/swallowed", f"{where}: failure swallowed and archive wrong: {d_}")
             res.outcome = f"{name}:absorbed"
-            res.info = {"label": label}
             return res
-        bad = sc.check_after_fault()
-        if bad:
-            res.fail(f"{sig}/{bad[0]}", f"{where}: {bad[1]}")
-        else:
-            # a clean re-run on the same path must succeed and give the fault-free result
-            try:
-                with effects.Injector() as inj2:
-                    sc.run(inj2)
-                d_ = _eq_ops(ops_ref, _ops(sc.target))
-                if d_:
-                    res.fail(sig + "/rerun-differs", f"{where}: clean re-run result differs from fault-free result: {d_}")
-            except Exception as e:  # noqa
-                res.fail(sig + "/rerun-fails", f"{where}: clean re-run on the same path failed: {type(e).__name__}: {str(e)[:200]}")
-        res.outcome = f"{name}:{label}:{type(exc).__name__}"
-        res.info = {"label": label}
+        _after_failure(sc, name, sig, where, first, log_ref, ref, res)
+        res.outcome = f"{name}:{label}:{type(exc).__name__}" + (":post-commit" if res.info.get("post_commit") else "")
         return res
     finally:
+        tempfile.tempdir = tmp_before
         shutil.rmtree(d, ignore_errors=True)
-        # temp dirs left behind by interrupted sessions
-        base = pathlib.Path(os.environ.get("VERIF_SCRATCH_DIR", "/nonexistent"))
-        if base.exists():
-            for p in base.glob("eko-*"):
+
+
+def _run_child(sc, plan):
+    """Run the scenario with the plan in a forked child that dies by os._exit at the planned effect (no handler, no
+    finaliser runs); returns (exit status, error text). Same as `python -m vf.tools.crash_run` without the start-up of
+    a new interpreter. 137 = killed at the planned effect, 0 = scenario completed, 3 = exception."""
+    errfile = sc.d / "child.err"
+    pid = os.fork()
+    if pid == 0:
+        code = 3
+        try:
+            try:
+                with _injector(plan) as inj:
+                    sc.run(inj)
+                code = 0
+            except BaseException:  # noqa
+                import traceback
+
                 try:
-                    if p.is_dir() and p.stat().st_uid == os.getuid():
-                        import time
-
-                        if time.time() - p.stat().st_mtime > 120:
-                            shutil.rmtree(p, ignore_errors=True)
-                except OSError:
+                    errfile.write_text(traceback.format_exc())
+                except Exception:  # noqa
                     pass
+        finally:
+            os._exit(code)
+    _, status = os.waitpid(pid, 0)
+    code = os.waitstatus_to_exitcode(status)
+    err = errfile.read_text() if errfile.exists() else ""
+    errfile.unlink(missing_ok=True)
+    return code, err
 
 
-def _evaluate_kill(case, sc, name, plan, log_ref, ops_ref, res):
+def _evaluate_kill(case, sc, name, plan, log_ref, ref, res):
     """Crash (process death) at one effect: the scenario runs in a child that dies with os._exit at the planned point."""
-    import json
-    import subprocess
-    import sys
-
     first = min(plan)
     label = log_ref[first] if first < len(log_ref) else "?"
-    out = subprocess.run(
-        [sys.executable, "-m", "vf.tools.crash_run", name, json.dumps({str(k): v for k, v in plan.items()}), str(sc.d)],
-        capture_output=True, text=True, timeout=1200,
-    )
+    code, err = _run_child(sc, plan)
     kind = plan[first]
     sig = f"{name}/crash@{label}/{kind}"
-    where = f"scenario={name} plan={plan} child exit={out.returncode}"
-    if out.returncode == 0:
+    where = f"scenario={name} plan={plan} child exit={code}"
+    if code == 0:
         raise HarnessError(f"planned crash {plan} never reached: child completed")
-    if out.returncode != 137:
-        raise HarnessError(f"child failed unexpectedly ({out.returncode}): {out.stderr[-600:]}")
-    bad = sc.check_after_fault()
-    if bad:
-        res.fail(f"{sig}/{bad[0]}", f"{where}: {bad[1]}")
-    else:
-        try:
-            with effects.Injector() as inj2:
-                sc.run(inj2)
-            d_ = _eq_ops(ops_ref, _ops(sc.target))
-            if d_:
-                res.fail(sig + "/rerun-differs", f"{where}: clean re-run after the crash differs from the fault-free result: {d_}")
-        except Exception as e:  # noqa
-            res.fail(sig + "/rerun-fails", f"{where}: clean re-run on the same path after the crash failed: {type(e).__name__}: {str(e)[:200]}")
-    res.outcome = f"{name}:{label}:killed"
+    if code != 137:
+        raise HarnessError(f"child failed unexpectedly ({code}): {err[-600:]}")
     res.info = {"label": label}
+    _after_failure(sc, name, sig, where, first, log_ref, ref, res, what="crash")
+    res.outcome = f"{name}:{label}:killed" + (":post-commit" if res.info.get("post_commit") else "")
     return res
 
 
 WRITE_LABELS = ("file.write",)
+KILL_TAIL = 20
 
 
 def run(ctx):
     cases = []
     sizes = {}
-    for name in SCENARIOS:
+    for name in SCENARIOS + [REFUSED]:
+        _template(name)
         log, _ = _reference(name)
         sizes[name] = len(log)
         for i, label in enumerate(log):
@@ -303,8 +454,10 @@ def run(ctx):
             cases.append({"scenario": name, "plan": {str(i): "interrupt"}})
             if label in WRITE_LABELS:
                 cases.append({"scenario": name, "plan": {str(i): "torn"}})
+            if label in ARRAY_LABELS:
+                cases.append({"scenario": name, "plan": {str(i): "memory"}})
             # process death at the effect (no handler runs); all effects in thorough, the archive-writing tail in quick
-            if ctx.thorough() or i >= len(log) - 14:
+            if ctx.thorough() or i >= len(log) - KILL_TAIL:
                 cases.append({"scenario": name, "plan": {str(i): "kill"}})
                 if label in WRITE_LABELS and ctx.thorough():
                     cases.append({"scenario": name, "plan": {str(i): "tornkill"}})
@@ -314,17 +467,27 @@ def run(ctx):
             for i in range(len(log)):
                 for j in range(i + 1, min(i + 9, len(log) + 8)):
                     cases.append({"scenario": name, "plan": {str(i): "raise", str(j): "raise"}})
-    _REF.clear()  # workers recompute their own reference (also a determinism check)
+    # solve on a path that holds an archive: its effects (as the tree stands: the one that precedes the refusal) are
+    # enumerated above; plus the run without any fault
+    cases.append({"scenario": REFUSED, "plan": {}})
+    # the templates and the fault-free references are made here once and inherited by the forked workers; every case
+    # still re-derives the effect sequence up to its fault and every clean re-run is compared with this reference
     ctx.run_cases(cases, evaluate_pair_tolerant)
     ctx.extra["effects_per_scenario"] = sizes
     ctx.rule = (
         "one case per (scenario, effect index, fault kind): every intercepted effect of the fault-free run of "
-        "each scenario (small LO solve across one threshold; edit session adding and overwriting operators with "
-        "two user-code points; EKO product into a new path; in-place product) is failed once (an OSError/RuntimeError, and separately a KeyboardInterrupt), byte writes also torn; process death (os._exit in a child process, no handler runs) at the last 14 effects of each scenario (thorough: at every effect, also after half of a byte write); "
-        "thorough adds pairs (i, i<j<=i+8) where the second fault lands in the error path; non-trivial = the fault fired and an exception propagated"
+        "each scenario (small LO solve across one threshold; edit session adding and overwriting operators and storing a new xgrid "
+        "in the metadata, with three user-code points; EKO product into a new path; in-place product) is failed once (an OSError/RuntimeError, "
+        "and separately a KeyboardInterrupt; array steps also a MemoryError), byte writes also torn; process death (os._exit in a forked child, "
+        f"no handler runs) at the last {KILL_TAIL} effects of each scenario (thorough: at every effect, also after half of a byte write); "
+        "thorough adds pairs (i, i<j<=i+8) where the second fault lands in the error path; fifth scenario: a solve on a path that holds an archive "
+        "(as the tree stands it is refused after one effect: that run without fault, and with the effect failed / interrupted / killed): "
+        "bytes of the archive unchanged (were the run not refused, all its effects would be enumerated and its result compared with a solve on a free path); "
+        "non-trivial = the fault fired and an exception propagated"
     )
     ctx.assumptions += [
-        "failures are exceptions or process death at intercepted Python-level sites; not modelled: power loss (unsynced data), faults inside C extensions, post-commit cleanup (rmtree)",
+        "failures are exceptions or process death at intercepted Python-level sites; not modelled: power loss (unsynced data), faults inside C extensions",
+        "a failure behind the commit point (removal of the working directory after os.replace onto the target) may leave either the untouched target or the complete fault-free content; anything else fails",
     ]
 
 
